@@ -35,10 +35,20 @@ func printLoadFile(code []ins, start int, dialect, m int, r *rand.Rand, signed b
 				b -= m
 			}
 		}
+		// a signed zero, and a field of 0 printed as -M, are signed spellings of 0
+		num := func(v int) string {
+			if v == 0 && r != nil && r.Intn(6) == 0 {
+				if r.Intn(2) == 0 {
+					return "-0"
+				}
+				return fmt.Sprint(-m)
+			}
+			return fmt.Sprint(v)
+		}
 		if dialect == 94 {
-			fmt.Fprintf(&sb, "       %s.%-2s %s %5d, %s %5d\n", opNames[i.Op], modNames[i.Mod], amNames[i.Am], a, amNames[i.Bm], b)
+			fmt.Fprintf(&sb, "       %s.%-2s %s %5s, %s %5s\n", opNames[i.Op], modNames[i.Mod], amNames[i.Am], num(a), amNames[i.Bm], num(b))
 		} else {
-			fmt.Fprintf(&sb, "       %-6s %s %5d, %s %5d\n", opNames[i.Op], amNames[i.Am], a, amNames[i.Bm], b)
+			fmt.Fprintf(&sb, "       %-6s %s %5s, %s %5s\n", opNames[i.Op], amNames[i.Am], num(a), amNames[i.Bm], num(b))
 		}
 	}
 	if dialect == 88 {
